@@ -323,10 +323,26 @@ def extra_shard(args):
     return agg
 
 
+def named_args_shard(args):
+    """Every argument bound by name (reversed order, and positional-then-named) must give what the positional call gives:
+    documented parameter names, driver/stdparams.py."""
+    import stdparams
+    from tablecheck import run_cases as _run_cases
+    agg = Agg()
+    ev = Ev(agg)
+    try:
+        _run_cases(agg, ev, stdparams.named_cases(['sort', 'uniq', 'set', 'setUnion', 'setInter', 'setDiff', 'setMember', 'minArray', 'maxArray']))
+    finally:
+        ev.close()
+    return agg
+
+
 def run(tier, seed):
     t0 = time.time()
     quick = tier != "thorough"
     total = Agg()
+    for a in common.pmap(named_args_shard, [(seed,)]):
+        total.merge(a)
     n = 12_000 if quick else 800_000
     for a in common.pmap(shard, [(seed * 307 + i, n // 64, quick) for i in range(64)]):
         total.merge(a)
@@ -343,7 +359,7 @@ def run(tier, seed):
             "universe for setUnion/Inter/Diff/Member; some sorts under GC every 3 steps; dataflow programs (DAGs of "
             "setUnion/Inter/Diff/set/sort/uniq over locals in which operands are earlier results or the very same value, also passed "
             "twice through a parameter); re-entrant comparisons (sort/set/minArray/maxArray/setUnion over rows whose deciding element is "
-            "lazy and itself runs sort/set/fold/filter/format..., nested up to twice). distinct_nontrivial = "
+            "lazy and itself runs sort/set/fold/filter/format..., nested up to twice). documented parameter names: every argument bound by name (reversed order, and positional-then-named) gives what the positional call gives (driver/stdparams.py). distinct_nontrivial = "
             "distinct (family, source) pairs compared.")
     return common.finish(PROP, tier, seed, total, rule, t0, extra={"set_pairs_exhaustive": True},
                          assumptions=["Python's sorted() is stable and list/str comparison is lexicographic by code point"])
